@@ -6,4 +6,5 @@ set -e
 cd "$(dirname "$(readlink -f "$0")")/.."
 python3 tools/translate.py --repo /repo --out coq/Gen
 rm -f genref/*.v; cp coq/Gen/*.v genref/
+python3 -c "import json; json.dump(json.load(open('coq/Gen/.status.json'))['owners'], open('genref/owners.json','w'), indent=1, sort_keys=True)"
 echo "genref: $(ls genref | wc -l) files"
